@@ -493,6 +493,8 @@ class ImplRun(object):
             self.fired[sid] = self.fired.get(sid, 0) + 1
             k, flag = kind_of_exc(f.value)
             self.emit([7, sid, 0, k, flag, 0, 0])
+            if getattr(self, "reenter", None) is not None and getattr(self, "reenter_sid", None) == sid:
+                self.reenter_send()
         return cb, eb
 
     # -- cache
@@ -605,20 +607,38 @@ class ImplRun(object):
         self.snaps.append(self.snapshot())
         return mev
 
-    def split_step(self, mev2):
-        """the step of the current event ends here and the model event mev2 begins (a result that arrives
-        synchronously, inside the call that sent the request)"""
+    def split_step(self, mev2, sync_result=True):
+        """the step of the current event ends here and the model event mev2 begins: a result that arrives
+        synchronously, inside the call that sent the request (sync_result), or a call the application makes
+        re-entrantly from the callback of a send Deferred"""
         self.events.append(self.cur_event)
         self.applied.append(self.result_applied)
         self.raw.append(list(self.cur))
         self.trace.append(sorted(self.cur))
         snap = self.snapshot()
-        snap["busy"] = snap["req"] = True      # between the two halves the request just sent is outstanding
+        if sync_result:
+            snap["busy"] = snap["req"] = True      # between the two halves the request just sent is outstanding
         self.snaps.append(snap)
         self.cur = []
         self.cur_event = mev2
-        self.result_applied = True
+        self.result_applied = bool(sync_result)
         self._split = True
+
+    def reenter_send(self):
+        """the application's errback of a cancelled send calls send_messages() re-entrantly (python event "recancel"):
+        for the sequential model this is the send event right after the cancel event"""
+        t, key_none, specs = self.reenter
+        self.reenter = None
+        sid = self.nsid
+        key, msgs = make_key(sid, key_none), make_msgs(sid, specs)
+        self.sends[sid] = (key, msgs)
+        self.nsid += 1
+        mev2 = [1, t, 0, len(msgs), sum(len(m) for m in msgs if m is not None)]
+        self.split_step(mev2, sync_result=False)
+        self.send_ev[len(self.events)] = sid
+        d = self.producer.send_messages(TOPICS[t], key=key, msgs=msgs)
+        self.send_d[sid] = d
+        d.addCallbacks(*self.outcome_cb(sid))
 
     def snapshot(self):
         """what an outside observer can tell after an event: is the producer waiting on anything it asked its
@@ -671,6 +691,18 @@ class ImplRun(object):
             self.cur_event = mev
             d = self.send_d.get(ev[1])
             if d is not None:
+                d.cancel()
+            return mev
+        if op == "recancel":      # cancel(sid) by an application whose errback submits a new send re-entrantly
+            _op, sid, t, key_none, specs = ev
+            mev = [3, sid]
+            self.cur_event = mev
+            d = self.send_d.get(sid)
+            if d is not None and not d.called:
+                self.reenter, self.reenter_sid = (t, key_none, specs), sid
+                d.cancel()
+                self.reenter = None
+            elif d is not None:
                 d.cancel()
             return mev
         if op == "tick":
@@ -942,6 +974,11 @@ def gen_event(rnd, run, stopped):
             opts.append((3.0, lambda: ("broken", False)))
         else:
             opts.append((0.5, lambda: ("broken", True)))
+    if cfg.get("reenter") and outst:
+        def rc():
+            _s, _sid, t, key_none, specs = gen_send(rnd, run)     # also scripts the partitioner choice of the new send
+            return ("recancel", rnd.choice(outst), t, key_none, specs)
+        opts.append((cfg["reenter"], rc))
     if cfg.get("sync") and len(getattr(run.client, "sync_plans", [0, 0])) < 2:
         def sy():
             r = rnd.random()
